@@ -363,7 +363,7 @@ Proof. vm_compute. reflexivity. Qed.
 
 
 # ---- T1 / T2 (proved; Proofs/T2Expr, T2Proofs, T1Code, T1Vm, T1Expr, T1Proofs, Language) ----------------
-def _extend(pid, header_sub, imports_add, items_add, header_new=None):
+def _extend(pid, header_sub, imports_add, items_add, header_new=None, prepend=False):
     h, imp, items, tail = PROPS[pid]
     if header_new is not None:
         h = header_new
@@ -371,7 +371,7 @@ def _extend(pid, header_sub, imports_add, items_add, header_new=None):
         for a, b in header_sub:
             assert a in h, (pid, a)
             h = h.replace(a, b)
-    PROPS[pid] = (h, imp + "\n" + imports_add, items + items_add, tail)
+    PROPS[pid] = (h, (imports_add + "\n" + imp) if prepend else (imp + "\n" + imports_add), items + items_add, tail)
 
 _LANG_IMPORTS = """From BCL Require Import Model.Api Model.Compile Spec.Syntax Spec.AstSem Proofs.ParserInvProofs Proofs.T2Expr Proofs.T2Proofs Proofs.T1Expr Proofs.T1Proofs Proofs.Language."""
 
@@ -468,3 +468,48 @@ _extend("C06", [("""Validated by
         "From BCL Require Import Model.Compile Spec.Syntax Spec.AstSem Proofs.T2Expr Proofs.T2Proofs Proofs.T1Expr Proofs.T1Proofs Proofs.Language.",
         [("C06_parser_fuel", "T2Proofs", "T2_accept_no_oof", ""),
          ("C06_compiled_runs_clean", "Language", "compiled_runs_clean", "")])
+
+_extend("C04", [("""That `:all -> struct` and unknown selectors/targets are compile errors is part of the grammar
+   (Spec/Syntax.pbind) and of T2 (tested by t2check).""", """That `:all -> struct` and unknown selectors/targets are compile errors is part of the grammar
+   (Spec/Syntax.pbind has no production for them) and of T2 (proved: C04_static, accepted iff a sentence);
+   C04_language: for every accepted source text the binding and the warnings of the run are those of the
+   big-step semantics, whose SBind case is Sem.select over the completed toplevel blocks of that type.""")],
+        _LANG_IMPORTS,
+        [("C04_language", "Language", "bcl_language", ""),
+         ("C04_static", "Language", "bcl_accepts_iff", "")], prepend=True)
+
+# ---- compile_verifies (Proofs/VerifyFrag.v, CompileVerifies.v) and the tree-level C05 chain (Proofs/C05Tree.v) ----
+_extend("C10", [("""the stronger all-paths statement for compiled code (every compiled program passes `verify`) remains tested
+   on every generated program rather than proved.""", """the all-paths statement for compiled code is C10_compile_verifies / C10_parsed_verifies: the code generator,
+   and therefore (T2) the parser, only ever produces programs the verifier accepts -- so by C10_check_sound every
+   path through every compiled program, including the operands a particular run skips, is well-formed.  The
+   verifier is still run on the code the REAL compiler emits for every generated program (certificate checking),
+   which ties that statement to parse.go.""")],
+        "From BCL Require Import Proofs.VerifyFrag Proofs.CompileVerifies.",
+        [("C10_compile_verifies", "CompileVerifies", "compile_verifies", "every program the code generator accepts passes the verifier"),
+         ("C10_parsed_verifies", "CompileVerifies", "parsed_verifies", "every program Parse accepts passes the verifier")])
+
+_extend("C06", [], "From BCL Require Import Proofs.CompileVerifies.",
+        [("C06_parsed_verifies", "CompileVerifies", "parsed_verifies", "hence (C06_vm_total) runs to RET or a documented runtime error within the fuel, on every path")])
+
+_extend("C05", [("""   C05_bind_roundtrip: for every struct type""", """   C05_tree_roundtrip (Proofs/C05Tree.v) starts from the syntax tree of the written text: for every struct type of the
+   family `bfam d` (as `fam` below, and a nested struct field's type name, if it has one, matches the field name --
+   forced by the rule that a struct type's own name must match the block type) and every value v of it (ints in the
+   int64 range, no NaN with the sign bit set), the tree `prog_of_block (tree_of ty v bt)` -- one `def` with a field
+   assignment `k = literal` per scalar field (negative numbers written with unary minus, -2^63 as -(2^63-1) - 1) and a
+   nested `def` per struct field, followed by `bind bt -> struct` -- is accepted by the code generator, the big-step
+   semantics binds exactly that block, Bind stores it into a zero target as exactly v (C05_tree_roundtrip), and
+   executing the generated code does the same (C05_code_roundtrip, via T1; up to the two VM limits).  The slice
+   forms bind `bt:all -> slice` and yield the values in order.  Text -> tokens -> tree (quoting, number printing) is
+   exercised by the harness only.  The statement over `fam`/`blocks_of` with an arbitrary nested type name is FALSE
+   at tree level (C05_tree_roundtrip_counterexample: such blocks are not producible by any BCL text) and is kept
+   only as a statement about Bind:
+   C05_bind_roundtrip: for every struct type""")],
+        "From BCL Require Import Model.Api Model.Compile Spec.Syntax Spec.AstSem Proofs.T1Expr Proofs.T1Proofs Proofs.C05Tree.",
+        [("C05_tree_roundtrip", "C05Tree", "C05_tree_roundtrip_bfam", "value -> tree -> semantics -> Bind = value"),
+         ("C05_code_roundtrip", "C05Tree", "C05_code_roundtrip_bfam", "value -> tree -> generated code -> VM -> Bind = value"),
+         ("C05_tree_roundtrip_slice", "C05Tree", "C05_tree_roundtrip_slice_bfam", ""),
+         ("C05_code_roundtrip_slice", "C05Tree", "C05_code_roundtrip_slice_bfam", ""),
+         ("C05_tree_bind_roundtrip", "C05Tree", "tree_bind_roundtrip", ""),
+         ("C05_literals", "C05Tree", "eval_lit_expr", "every scalar is denoted by its literal expression"),
+         ("C05_run_tree", "C05Tree", "run_prog_of_block", "the semantics of a written block is that block")])
